@@ -99,8 +99,8 @@ KNOWN = [
      "same defect seen by the scaling oracle: polarised NNLO matched operator depends on the matching-scale ratio at O(a_s^2) (exponent 1.97 < 3)"),
     ("C30", "singlet_qed/slot=(4,0)/Sdelta-is-ns+",
      "FHMRUVV N3LO gamma_singlet_qed builds the Sdelta entry with variation[3] ('qq') while ns+ uses variation[4] ('nsp'): n3lo_ad_variation=(0,0,0,1,0,0,0), N=2, nf=3; not repaired: the function is documented and tested (tests/eko/kernels/test_kernels_QEDsinglet.py::test_zero_true_gamma) with a 4-entry variation tuple, the repair needs an interface change"),
-    ("C26", "operator_matrix_elements.unpolarized.space_like.as3.agq.A_gq/component=[0]/non-finite",
-     "A_gq^(3)(N=2) is NaN (spurious 1/(N-2) terms that cancel analytically): A_gq(2+0j, cache, 3, 0.0); acknowledged in tests/.../test_as3.py; not repaired: needs the analytic limit"),
+    ("C26", "operator_matrix_elements.unpolarized.space_like.as3.agq.A_gq/component=[0]/non-finite/at=N=2",
+     "A_gq^(3) is NaN exactly at N=2, for every L and nf (spurious 1/(N-2) terms that cancel analytically): A_gq(2+0j, cache, 3, 0.0); acknowledged in tests/.../test_as3.py; not repaired: needs the analytic limit (a non-finite value of A_gq at any other N is a different signature)"),
     ("C27", "ad_ut.gamma_ns/mode=10200/order-index=2/cusp-coefficient",
      "time-like NNLO valence anomalous dimension has the wrong overall sign on its non-singlet part (as3.gamma_nsv returns -(gamma_nsm + nf PS2)): large-N slope -A_3 instead of +A_3; not repaired: tests/ekore/anomalous_dimensions/unpolarized/time_like/test_as3.py::test_nsv pins the current values"),
 ]
